@@ -247,7 +247,12 @@ void h_dynamic_assign_from(void){   /* dynamic_ndarray = hybrid array: afterward
 #ifdef KF_C20_DYNAMIC_ASSIGN_SHAPE_MISMATCH
   ASSUME(ds[0] == ss[0] && ds[1] == ss[1]);
 #endif
-  int r = k_dynamic_assign_from(ds, ss, sd, &odim, oshape, &olen, od); OBS(r);
+#ifndef RSZ
+#define RSZ 0
+#endif
+  /* RSZ (per-query constant): which resize overload prepares the destination - 0 variadic integers, 1 std::array, 2 static_vector (generic index-array overload), 3 std::vector */
+  int r = RSZ == 0 ? k_dynamic_assign_from(ds, ss, sd, &odim, oshape, &olen, od) : RSZ == 1 ? k_dynamic_assign_from_arr(ds, ss, sd, &odim, oshape, &olen, od)
+        : RSZ == 2 ? k_dynamic_assign_from_sv(ds, ss, sd, &odim, oshape, &olen, od) : k_dynamic_assign_from_vec(ds, ss, sd, &odim, oshape, &olen, od); OBS(r);
   ASSERT(r == 1, "source built");
   ASSERT(odim == 2 && oshape[0] == ss[0] && oshape[1] == ss[1], "after assignment the destination has the source's shape");
   ASSERT(olen == ss[0] * ss[1], "buffer length == product of the shape");
